@@ -178,7 +178,7 @@ class HasProperties(HasDescriptors):
         res = {}
         for pn, po in self.propertyDict.items():
             val = self.propertyValues.get(pn, po.default)
-            if po.export and (po.export == 'always' or val != po.default):
+            if po.export and (po.export == 'always' or po.mandatory or val != po.default):
                 try:
                     val = po.datatype.export_value(val)
                 except AttributeError:
